@@ -389,3 +389,6 @@ def run(repo: Repo, rep: Report, tier: str) -> None:
     derived_in_new_rule(repo, rep, "C18.R10")
     field_source_rule(repo, rep, "C18.R11")
     add_field_fold_rule(repo, rep, "C18.R12")
+    from .share import share_rules
+
+    share_rules(repo, rep, tier, "c03", {"C03.R1": "C18.R13"}, "the two sites that generate a reader (one-shot compile, recompilation on commit) must fail the same way: fall back, never raise")
